@@ -152,7 +152,8 @@ def hmf_case(draw):
     M = draw(st.integers(20, 60))
     return dict(N=N, M=M, K=K, seed=draw(st.integers(0, 10 ** 6)), zf=draw(st.sampled_from([0.1, 0.0, 0.25])),
                 epsilon=draw(st.sampled_from([None, 0.0, 0.3, 0.05])), positive=draw(st.booleans()), sparse_if_eps=draw(st.sampled_from([0, 0, 1, 2])),
-                scale=draw(st.sampled_from([1.0, 1.0, 1e7, 1e-3, 1e4])))
+                scale=draw(st.sampled_from([1.0, 1.0, 1e7, 1e-3, 1e4])), uniform=draw(st.sampled_from([0, 0, 1, 3])),
+                prior_eps=draw(st.sampled_from(['same', 'same', 'same', None, 0.3, 1.0, 0.0])))
 
 
 def hmf_data(case):
@@ -183,6 +184,9 @@ def hmf_data(case):
     for q in range(case.get('dead', 0)):
         mask[:, (seed + 7 * q + 1) % M] = True
     iv[mask] = 0.0
+    # spectra with one error bar for all their pixels (the same inverse variance everywhere, nothing masked)
+    for q in range(case.get('uniform', 0)):
+        iv[(seed + 3 * q) % N, :] = (4.0, 0.25, 2.5)[q % 3]
     # flux units: the same spectra in units S times smaller (values S times larger, inverse variances S^2 times smaller)
     S = case.get('scale', 1.0)
     return sp * S, iv / S ** 2
@@ -197,7 +201,18 @@ def hmf_steps_body(case):
         case = dict(case, sparse=case['sparse_if_eps'])
         sp, iv = hmf_data(case)
         note_label('pixel-with-fewer-good-spectra-than-components')
-    h = HMF(sp.copy(), iv.copy(), K=K, epsilon=eps)
+    pe = case.get('prior_eps', 'same')
+    if pe == 'same' or pe == eps or (not pe and case.get('sparse')):      # (steps without a penalty are not well posed on the sparse-pixel data)
+        h = HMF(sp.copy(), iv.copy(), K=K, epsilon=eps)
+    else:
+        # a scan over the strength of the smoothness penalty on one object: steps taken with another epsilon before it is set to this one
+        h = HMF(sp.copy(), iv.copy(), K=K, epsilon=pe)
+        h.g = pseudo(case['seed'] + 9, (K, M))
+        h.a = pseudo(case['seed'] + 10, (N, K))
+        h.a = call(h.astep)
+        h.g = call(h.gstep)
+        h.epsilon = eps
+        note_label('epsilon-changed-on-the-object')
     h.g = pseudo(case['seed'] + 7, (K, M))
     h.a = pseudo(case['seed'] + 8, (N, K))
     g0 = h.g.copy()
@@ -241,6 +256,8 @@ def hmf_steps_body(case):
                       lambda: dict(column=j, residual=r.tolist()))
     if (iv == 0).any():
         note_label('zero-weights')
+    if case.get('uniform'):
+        note_label('spectrum-with-one-weight-for-all-pixels')
 
 
 @st.composite
